@@ -1,0 +1,29 @@
+//go:build verif
+
+package types
+
+// Contracts for the deductive verifier in /verif (govc). Comment-only; compiled only with -tags verif.
+
+//@ spec func hashPayloadSpec(p Payload) string = sha256(sha256(p.SourcePort) + sha256(p.DestinationPort) + sha256(p.Version) + sha256(p.Encoding) + sha256(p.Value))
+
+//@ spec func payloadsHash(ps []Payload, n int) string
+//@   axiom forall ps []Payload :: payloadsHash(ps, 0) == ""
+//@   axiom forall ps []Payload, n int :: n >= 0 ==> payloadsHash(ps, n + 1) == payloadsHash(ps, n) + hashPayloadSpec(ps[n])
+
+//@ spec func acksHash(as [][]byte, n int) string
+//@   axiom forall as [][]byte :: acksHash(as, 0) == ""
+//@   axiom forall as [][]byte, n int :: n >= 0 ==> acksHash(as, n + 1) == acksHash(as, n) + sha256(as[n])
+
+//@ contract hashPayload
+//@   ensures result == hashPayloadSpec(data)
+//@   ensures len(result) == 32
+
+//@ contract CommitPacket
+//@   invariant #1 acc: appBytes == payloadsHash(packet.Payloads, rangeindex + 1)
+//@   invariant #1 idx: 0 - 1 <= rangeindex && rangeindex < len(packet.Payloads) || (len(packet.Payloads) == 0 && rangeindex == 0 - 1)
+//@   ensures layout: result == sha256(str(2) + sha256(packet.DestinationClient) + sha256(be64(packet.TimeoutTimestamp)) + sha256(payloadsHash(packet.Payloads, len(packet.Payloads))))
+
+//@ contract CommitAcknowledgement
+//@   invariant #1 acc: buf == acksHash(acknowledgement.AppAcknowledgements, rangeindex + 1)
+//@   invariant #1 idx: 0 - 1 <= rangeindex && rangeindex < len(acknowledgement.AppAcknowledgements) || (len(acknowledgement.AppAcknowledgements) == 0 && rangeindex == 0 - 1)
+//@   ensures layout: result == sha256(str(2) + acksHash(acknowledgement.AppAcknowledgements, len(acknowledgement.AppAcknowledgements)))
